@@ -78,7 +78,9 @@ def from_bban_sloppy_arguments(mon, cc, b0, table):
     for sloppy arguments (surplus characters in the country code, short / long / decorated BBANs)."""
     S = lib()
     for carg, barg in [(cc + b0[:1], b0[1:]), (cc + "8", b0[:-1]), (cc + "89", b0[:-2]), (cc.lower(), b0), (cc + " ", b0), (cc, b0 + "0"), (cc, b0[:-1]),
-                       (cc, " " + b0), (cc, b0.lower()), (cc[:1], cc[1:] + b0), ("", b0), (cc, ""), (cc + "00", b0[2:]), (cc, b0[:4] + " " + b0[4:])]:
+                       (cc, " " + b0), (cc, b0.lower()), (cc[:1], cc[1:] + b0), ("", b0), (cc, ""), (cc + "00", b0[2:]), (cc, b0[:4] + " " + b0[4:]),
+                       # BBANs whose numeric form is longer than the interpreter converts by default (4300 digits)
+                       (cc, "1" * 4301), (cc, "NWBK" * 1200), (cc, b0 + "7" * 4400), (cc, "9" * 20000)]:
         for kw in ({}, {"validate_bban": True}):
             o = observe(S.IBAN.from_bban, carg, barg, **kw)
             _judge_from_bban(mon, o, {"country_arg": carg, "bban_arg": barg, "kw": kw}, table)
